@@ -28,8 +28,8 @@ def setup(J):
             jobs.append(J.with_delay_fallback(J.wf("C10", "g2", 2, 1, 2, "cmd", oracles=["nohang", "c10-instant"], tier=tier, events_dep=False, crash=True, fault={"proc": "p", "match": "in1.txt", "kind": fk}, id=f"C10-instant-g2-fault-{fk}")))
         if not q:
             add("g3", 3, 2, "cmd"); add("g4", 2, 2, "cmd"); add("g6", 2, 2, "cmd"); add("g7", 2, 2, "func"); add("g8", 2, 2, "func"); add("g5b", 2, 2, "cmd"); add("g12", 3, 2, "cmd")
-        return {"level": "model_checking", "native": True, "stages": [lambda ctx, prev: jobs, J.maporder_stage("C10", o, tier), J.maporder_stage("C10", o, tier, graphs=("gjoin3",))],
-                "rule": "graphs G3 G5 G6 G6b G7 G8 G8b G14a + join scenario, command and Go-function bodies, every Mazurkiewicz trace (audit content must not depend on the schedule) + forced map-iteration orders; every finalized output's .audit.json parsed and compared field by field with the reference lineage tree: process name, exact command handed to the exec seam, params, tags (incl. tags attached by MapToTags on every descendant), out-files, Upstream keyed by input path recursively to the sources, start <= finish, duration >= 0",
+        return {"level": "model_checking", "native": True, "stages": [lambda ctx, prev: jobs, J.maporder_stage("C10", o, tier), J.maporder_stage("C10", o, tier, graphs=("gjoin3",))] + J.opfault_stages("C10", ["nohang", "c10", "c04"], tier, [("g3", 1, 1, "cmd", ""), ("g7", 1, 1, "func", ""), ("g14a", 1, 1, "cmd", ""), ("g8", 1, 1, "cmd", "")]),
+                "rule": "graphs G3 G5 G6 G6b G7 G8 G8b G14a + join scenario, command and Go-function bodies, every Mazurkiewicz trace (audit content must not depend on the schedule) + forced map-iteration orders; every finalized output's .audit.json parsed and compared field by field with the reference lineage tree: process name, exact command handed to the exec seam, params, tags (incl. tags attached by MapToTags on every descendant), out-files, Upstream keyed by input path recursively to the sources, start <= finish, duration >= 0; single injected I/O error (the n-th file-system operation fails with EIO, every n): stop, or complete with complete records",
                 "assumptions": J.BASE_ASSUMPTIONS + ["IDs and absolute times are not compared", "the tagging-on-a-fan-out-arm scenario (G14) belongs to C12: its audit content depends on a data race (known finding there)"]}
 
     @J.register("C11")
